@@ -172,6 +172,27 @@ def _conv(v, log, path):
     return v
 
 
+def pristine_arrays(spec, path=""):
+    """path -> bytes of every array of `spec` as the caller built it, BEFORE any constructor saw it
+    (same paths as `make` logs): a constructor that modifies its argument is a violation too (seed C19-3)."""
+    out = {}
+
+    def walk(v, pth):
+        if isinstance(v, dict):
+            if "arr" in v:
+                out[pth] = np.array(v["arr"], dtype=v["dt"]).reshape(v["shape"]).tobytes()
+            elif "c" in v:
+                for k, w in v["a"].items():
+                    walk(w, f"{pth}.{k}")
+            elif "tuple" in v:
+                for i, x in enumerate(v["tuple"]):
+                    walk(x, f"{pth}[{i}]")
+
+    for k, w in spec["a"].items():
+        walk(w, f"{path}{k}")
+    return out
+
+
 def make(spec, log=None, path=""):
     """Construct the object described by `spec` (fresh arrays every time)."""
     import mici.matrices as mm
@@ -922,11 +943,18 @@ def check_order(spec, seed, order, ref=None, rounding=None):
     obj = make(spec, log)
     nested = [(p, a) for p, a in log if isinstance(a, tuple)]
     log = [(p, a) for p, a in log if not isinstance(a, tuple)]
-    caller = [(p, a, a.tobytes()) for p, a in log]
+    pristine = pristine_arrays(spec)
+    caller = [(p, a, pristine.get(p, a.tobytes())) for p, a in log]
     params = [(p, a, a.tobytes()) for p, a in param_arrays(obj)]
     env = Env(obj.shape, seed)
     ops = op_table(obj)
     cls = spec["c"]
+    for p, a, snap in caller:
+        if a.tobytes() != snap:
+            bad.append((f"caller-array-changed-by-constructor:{cls}:{p}",
+                        f"{cls}: caller-supplied array `{p}` was modified by the constructor"))
+    if bad:
+        return bad
     for name in order:
         if name not in ops:
             continue
